@@ -215,7 +215,10 @@ package types
 
 // a store without streams has empty deposit sums (used by the genesis import)
 //@ prelude
-//@ (assert (forall ((s (Array stream.Key (Slice Int))) (d Str)) (! (=> (forall ((r BytesV) (sd BytesV)) (! (not (strHas s r sd)) :pattern ((select s (kStream r sd))))) (= (depSum s d) 0)) :pattern ((depSum s d)))))
+//@ ; noStreams(s): the store holds no stream; then every deposit sum is zero (only stated for stores marked so)
+//@ (declare-fun noStreams ((Array stream.Key (Slice Int))) Bool)
+//@ (assert (forall ((s (Array stream.Key (Slice Int))) (d Str)) (! (=> (noStreams s) (= (depSum s d) 0)) :pattern ((noStreams s) (depSum s d)))))
+//@ (assert (forall ((s (Array stream.Key (Slice Int))) (r BytesV) (sd BytesV)) (! (=> (noStreams s) (not (strHas s r sd))) :pattern ((noStreams s) (select s (kStream r sd))))))
 //@ (define-fun strBytes ((x stream.Stream)) (Slice Int) (marshal.stream.Stream x))
 //@ end
 
